@@ -4,7 +4,7 @@ Abstract value of an array-valued term = the set of *shape sources* whose broadc
 of primitive-argument positions.  `ans` and (in a VJP) `g` have the support of all broadcasting
 arguments.  None = TOP (unknown)."""
 from .. import facts
-from ..terms import T
+from ..terms import walk,  T
 from .common import base_name, callee_ref, construct_of, is_numpy_callable, project, resolve_callee
 
 TOP = None
@@ -332,87 +332,202 @@ def jvp(ctx, world):
 
 # ------------------------------------------------------------------------------------------- A3.helper
 def helpers(ctx, world):
-    """The summarised helpers themselves: unbroadcast reduces exactly by the TARGET's metadata."""
-    import ast
-
-    from ..model import AnalysisError, norm_text
-    from .common import loc_of
+    """The summarised helpers themselves: unbroadcast reduces exactly by the TARGET's metadata.  Decided on
+    the evaluated function terms (loop-carried values, canonical condition atoms, exhaustive valuations of the
+    kind tests), so the spelling of loops, guards (`continue`, flipped tests) and temporaries is irrelevant."""
+    from ..kfun import eval_function, is_call_to
+    from ..model import AnalysisError
+    from ..tutil import atom, cases, specialise, unseq
+    from .common import loc_of, resolve_callee
 
     ctx.describe("A3.helper", "unbroadcast(x, target_meta): (1) sums leading axes while ndim(x) > target_ndim, (2) for every axis where the TARGET's size is 1 sums that axis with keepdims=True - decided by the target's metadata only, never by x's own shape -, (3) casts complex to real only when the target is real; broadcast(x, target) mirrors it (expand to target_ndim, repeat size-1 axes to the target's size, real -> complex only when the target is complex)")
-    m, fn = world.repo.find_def("autograd.numpy.numpy_vjps", "unbroadcast")
+    ev = world.ev
+
+    def np_call(t, name):
+        if t is None or t.op != "call":
+            return False
+        r, pre = resolve_callee(ev, t)
+        if r is None or pre:
+            return False
+        return (r.kind == "wrapped" and r.name == name) or r.qual in (f"numpy.{name}", f"autograd.numpy.numpy_wrapper.{name}")
+
+    def arg(t, i, name):
+        if len(t.args) > i:
+            return t.args[i]
+        return t.kw.get(name)
+
+    def ndim_of(t, what):
+        return (np_call(t, "ndim") and len(t.args) == 1 and what(t.args[0])) or (t.op == "attr" and t.name == "ndim" and what(t.obj)) or (is_call_to(t, "builtins.len") and len(t.args) == 1 and ((t.args[0].op == "attr" and t.args[0].name == "shape" and what(t.args[0].obj)) or (np_call(t.args[0], "shape") and what(t.args[0].args[0]))))
+
+    def shape_of(t, what):
+        return (np_call(t, "shape") and len(t.args) == 1 and what(t.args[0])) or (t.op == "attr" and t.name == "shape" and what(t.obj))
+
+    def me(lp):
+        return lambda t: t.op == "loopvar" and t.name == lp.name and t.node is lp.node
+
+    def comp(src, i):
+        return lambda t: t.op == "sub" and t.obj.op == "iterelem" and t.obj.src is src and t.idx.op == "const" and t.idx.value == i
+
+    def is_true(t):
+        return t is not None and t.op == "const" and t.value is True
+
+    # ---------------------------------------------------------------- unbroadcast
+    r, syms, m, fn, sc = eval_function(world, "autograd.numpy.numpy_vjps", "unbroadcast")
     loc = loc_of(m, fn)
     q = "autograd.numpy.numpy_vjps.unbroadcast"
-    xp = fn.args.args[0].arg
-    metap = fn.args.args[1].arg
-    # names unpacked from the metadata tuple
-    unpack = None
-    for st in fn.body:
-        if isinstance(st, ast.Assign) and isinstance(st.targets[0], ast.Tuple) and isinstance(st.value, ast.Name) and st.value.id == metap and len(st.targets[0].elts) == 4:
-            unpack = [e.id for e in st.targets[0].elts]
-    if unpack is None:
-        raise AnalysisError("unbroadcast no longer unpacks (shape, ndim, dtype, iscomplex) from its metadata argument")
-    t_shape, t_ndim, _, t_cplx = unpack
-    whiles = [s for s in fn.body if isinstance(s, ast.While)]
-    fors = [s for s in fn.body if isinstance(s, ast.For)]
-    ifs = [s for s in fn.body if isinstance(s, ast.If)]
-
-    def names(n):
-        return {x.id for x in ast.walk(n) if isinstance(x, ast.Name)}
-
-    # (1)
-    ok1 = False
-    if len(whiles) == 1:
-        w = whiles[0]
-        c = w.test
-        ok1 = isinstance(c, ast.Compare) and len(c.ops) == 1 and isinstance(c.ops[0], ast.Gt) and isinstance(c.comparators[0], ast.Name) and c.comparators[0].id == t_ndim and xp in names(c.left) and len(w.body) == 1 and isinstance(w.body[0], ast.Assign) and _is_sum_of(w.body[0], xp, keepdims=False)
-    _ok(ctx, "A3.helper", "unbroadcast: sum leading axes while ndim(x) > target_ndim", ok1, loc, f"{q}:leading", "the leading-axes reduction of unbroadcast is not `while ndim(x) > target_ndim: x = sum(x, axis=broadcast_idx)`", "a scalar or lower-rank argument broadcast against a higher-rank one")
-    # (2)
+    ps = [a.arg for a in fn.args.args]
+    if len(ps) < 2:
+        raise AnalysisError("unbroadcast no longer takes (x, target_meta, ...)")
+    x, meta = syms[ps[0]], syms[ps[1]]
+    bidx = syms.get(ps[2]) if len(ps) > 2 else None
+    m_shape = lambda t: t.op == "sub" and t.obj is meta and t.idx.op == "const" and t.idx.value == 0
+    m_ndim = lambda t: t.op == "sub" and t.obj is meta and t.idx.op == "const" and t.idx.value == 1
+    m_cplx = lambda t: t.op == "sub" and t.obj is meta and t.idx.op == "const" and t.idx.value == 3
+    r = unseq(r) if r is not None else None
+    # (3) kind cast: exhaustive valuations of (iscomplexobj(value), target_iscomplex)
+    is_cx_test = lambda a: np_call(a, "iscomplexobj") and len(a.args) == 1
+    ok3, okr = True, True
+    V = None
+    if r is None:
+        ok3 = okr = False
+    else:
+        for xc in (True, False):
+            for tc in (True, False):
+                dec = lambda a, xc=xc, tc=tc: xc if is_cx_test(a) else (tc if m_cplx(a) else None)
+                cs = cases(specialise(r, dec))
+                if len(cs) != 1 or cs[0].facts:
+                    okr = False
+                    continue
+                leaf = cs[0].leaf
+                if xc and not tc:
+                    if not (np_call(leaf, "real") and len(leaf.args) == 1):
+                        ok3 = False
+                        continue
+                    leaf = leaf.args[0]
+                if V is None:
+                    V = leaf
+                elif leaf is not V:
+                    ok3 = False
+        tests = [t.cond for t in walk(r) if t.op == "if"]
+        if V is not None and not any(is_cx_test(a) and a.args[0] is V for c in tests for a in walk(c)):
+            ok3 = False
+    # (2) V = loop over enumerate(target_shape) summing the target's size-1 axes with keepdims
     ok2 = False
     why2 = "no `for axis, size in enumerate(target_shape)` loop"
-    if len(fors) == 1:
-        f = fors[0]
-        it = f.iter
-        if isinstance(it, ast.Call) and isinstance(it.func, ast.Name) and it.func.id == "enumerate" and len(it.args) == 1 and isinstance(it.args[0], ast.Name) and it.args[0].id == t_shape and isinstance(f.target, ast.Tuple) and len(f.target.elts) == 2:
-            axv, szv = [e.id for e in f.target.elts]
-            if len(f.body) == 1 and isinstance(f.body[0], ast.If) and not f.body[0].orelse:
-                cond = f.body[0].test
-                cn = names(cond)
-                cond_ok = isinstance(cond, ast.Compare) and len(cond.ops) == 1 and isinstance(cond.ops[0], ast.Eq) and isinstance(cond.left, ast.Name) and cond.left.id == szv and isinstance(cond.comparators[0], ast.Constant) and cond.comparators[0].value == 1
-                body_ok = len(f.body[0].body) == 1 and isinstance(f.body[0].body[0], ast.Assign) and _is_sum_of(f.body[0].body[0], xp, keepdims=True, axis_name=axv)
-                if not cond_ok:
-                    why2 = f"the size-1 reduction is guarded by `{norm_text(cond)}`, which is not just `size == 1` on the TARGET's shape" + (" (it also reads x)" if xp in cn else "")
-                elif not body_ok:
-                    why2 = "the size-1 reduction is not `x = sum(x, axis=axis, keepdims=True)`"
-                ok2 = cond_ok and body_ok
+    L1 = None
+    if V is not None and V.op == "loop" and V.get("it") is not None:
+        it = V.it
+        if is_call_to(it, "builtins.enumerate") and len(it.args) == 1 and m_shape(it.args[0]):
+            L1 = V.init
+            is_size1 = lambda a: a.op == "cmp" and a.opname == "Eq" and ((comp(it, 1)(a.l) and a.r.op == "const" and a.r.value == 1) or (comp(it, 1)(a.r) and a.l.op == "const" and a.l.value == 1))
+            ok2 = True
+            saw = set()
+            for c in cases(V.next):
+                extra = [a for a, p_ in c.facts if not is_size1(a)]
+                pol = c.pol(is_size1)
+                if extra or pol is None:
+                    ok2 = False
+                    why2 = f"the size-1 reduction is guarded by `{extra[0] if extra else c.leaf}`, which is not just `size == 1` on the TARGET's shape" + (" (it also reads x)" if any(y is x or me(V)(y) for e_ in extra for y in walk(e_)) else "")
+                    continue
+                saw.add(pol)
+                if pol:
+                    lf = c.leaf
+                    good = np_call(lf, "sum") and len(lf.args) >= 1 and me(V)(lf.args[0]) and arg(lf, 1, "axis") is not None and comp(it, 0)(arg(lf, 1, "axis")) and is_true(lf.kw.get("keepdims") if "keepdims" in lf.kw else (lf.args[3] if len(lf.args) > 3 else None))
+                    if not good:
+                        ok2 = False
+                        why2 = "the size-1 reduction is not `x = sum(x, axis=axis, keepdims=True)`"
+                elif not me(V)(c.leaf):
+                    ok2 = False
+                    why2 = "an axis whose target size is not 1 is modified"
+            if saw != {True, False}:
+                ok2 = False
+    # (1) L1 = while ndim(x) > target_ndim: x = sum(x, axis=broadcast_idx)
+    ok1 = False
+    if L1 is not None and L1.op == "loop" and L1.init is x:
+        nx = L1.next
+        body_ok = np_call(nx, "sum") and len(nx.args) >= 1 and me(L1)(nx.args[0]) and arg(nx, 1, "axis") is not None and (bidx is None or arg(nx, 1, "axis") is bidx) and not is_true(nx.kw.get("keepdims"))
+        cnd = L1.get("cond")
+        if cnd is not None:
+            a, pol = atom(cnd)
+            cond_ok = pol and a.op == "cmp" and a.opname == "Lt" and m_ndim(a.l) and ndim_of(a.r, me(L1))
+        else:
+            itr = L1.get("it")
+            cond_ok = itr is not None and is_call_to(itr, "builtins.range") and len(itr.args) == 1 and itr.args[0].op == "bin" and itr.args[0].opname == "Sub" and ndim_of(itr.args[0].l, lambda t: t is x) and m_ndim(itr.args[0].r)
+        ok1 = bool(body_ok and cond_ok)
+    _ok(ctx, "A3.helper", "unbroadcast: sum leading axes while ndim(x) > target_ndim", ok1, loc, f"{q}:leading", "the leading-axes reduction of unbroadcast is not `while ndim(x) > target_ndim: x = sum(x, axis=broadcast_idx)`", "a scalar or lower-rank argument broadcast against a higher-rank one")
     _ok(ctx, "A3.helper", "unbroadcast: every target axis of size 1 is summed with keepdims, decided by the target only", ok2, loc, f"{q}:size1", why2, "an argument with a size-1 axis broadcast against an array whose matching axis has length 0 (empty batch) or 1")
-    # (3)
-    ok3 = False
-    for i in ifs:
-        c = i.test
-        if isinstance(c, ast.BoolOp) and isinstance(c.op, ast.And) and len(c.values) == 2:
-            a, b = c.values
-            a_ok = isinstance(a, ast.Call) and getattr(a.func, "attr", getattr(a.func, "id", "")) == "iscomplexobj" and xp in names(a)
-            b_ok = isinstance(b, ast.UnaryOp) and isinstance(b.op, ast.Not) and isinstance(b.operand, ast.Name) and b.operand.id == t_cplx
-            body_ok = len(i.body) == 1 and isinstance(i.body[0], ast.Assign) and isinstance(i.body[0].value, ast.Call) and getattr(i.body[0].value.func, "attr", "") == "real"
-            ok3 = a_ok and b_ok and body_ok and not i.orelse
-    _ok(ctx, "A3.helper", "unbroadcast: complex -> real only when the target is real", ok3, loc, f"{q}:kind", "the kind cast of unbroadcast is not `if iscomplexobj(x) and not target_iscomplex: x = real(x)`", "a real argument combined with a complex one")
-    rets = [s for s in fn.body if isinstance(s, ast.Return)]
-    okr = len(rets) == 1 and isinstance(rets[0].value, ast.Name) and rets[0].value.id == xp and fn.body[-1] is rets[0]
+    _ok(ctx, "A3.helper", "unbroadcast: complex -> real only when the target is real", ok3 and V is not None, loc, f"{q}:kind", "the kind cast of unbroadcast is not `if iscomplexobj(x) and not target_iscomplex: x = real(x)`", "a real argument combined with a complex one")
     _ok(ctx, "A3.helper", "unbroadcast: single return of the reduced value", okr, loc, f"{q}:return", "unbroadcast has an early / different return", "any broadcasting binary operation")
-    # broadcast (numpy_jvps)
-    m2, fn2 = world.repo.find_def("autograd.numpy.numpy_jvps", "broadcast")
+    # ---------------------------------------------------------------- broadcast (numpy_jvps)
+    r, syms, m2, fn2, sc2 = eval_function(world, "autograd.numpy.numpy_jvps", "broadcast")
     loc2 = loc_of(m2, fn2)
     q2 = "autograd.numpy.numpy_jvps.broadcast"
-    xp2, tp2 = fn2.args.args[0].arg, fn2.args.args[1].arg
-    wh = [s for s in fn2.body if isinstance(s, ast.While)]
-    fo = [s for s in fn2.body if isinstance(s, ast.For)]
-    okb1 = len(wh) == 1 and isinstance(wh[0].test, ast.Compare) and isinstance(wh[0].test.ops[0], ast.Lt) and any(isinstance(c, ast.Call) and getattr(c.func, "attr", "") == "expand_dims" for c in ast.walk(wh[0]))
-    okb2 = False
-    if len(fo) == 1 and len(fo[0].body) == 1 and isinstance(fo[0].body[0], ast.If):
-        c = fo[0].body[0].test
-        okb2 = isinstance(c, ast.Compare) and isinstance(c.ops[0], ast.Eq) and isinstance(c.comparators[0], ast.Constant) and c.comparators[0].value == 1 and any(isinstance(x, ast.Call) and getattr(x.func, "attr", "") == "repeat" for x in ast.walk(fo[0].body[0]))
-    okb3 = isinstance(fn2.body[-1], ast.Return) and isinstance(fn2.body[-1].value, ast.Name) and fn2.body[-1].value.id == xp2
-    _ok(ctx, "A3.helper", "broadcast: expand to target_ndim, repeat size-1 axes to the target's size, return it", okb1 and okb2 and okb3, loc2, f"{q2}:structure", "broadcast(x, target) no longer expands leading axes and repeats size-1 axes up to the target's shape", "forward mode through add/subtract/mod with a smaller differentiated argument")
+    ps2 = [a.arg for a in fn2.args.args]
+    x2, tgt = syms[ps2[0]], syms[ps2[1]]
+    is_meta = lambda t: t.op == "call" and t.fn.op == "ref" and t.fn.ref.qual.endswith(".metadata") and len(t.args) == 1 and t.args[0] is tgt
+    t_shape = lambda t: (t.op == "sub" and is_meta(t.obj) and t.idx.op == "const" and t.idx.value == 0) or shape_of(t, lambda y: y is tgt)
+    t_ndim = lambda t: (t.op == "sub" and is_meta(t.obj) and t.idx.op == "const" and t.idx.value == 1) or ndim_of(t, lambda y: y is tgt)
+    t_cplx = lambda t: (t.op == "sub" and is_meta(t.obj) and t.idx.op == "const" and t.idx.value == 3) or (np_call(t, "iscomplexobj") and len(t.args) == 1 and t.args[0] is tgt)
+    r = unseq(r) if r is not None else None
+    okb = r is not None
+    W = None
+    if okb:
+        is_xcx = lambda a: np_call(a, "iscomplexobj") and len(a.args) == 1 and a.args[0] is not tgt
+        for tc in (True, False):
+            for xc in (True, False):
+                dec = lambda a, xc=xc, tc=tc: tc if t_cplx(a) else (xc if is_xcx(a) else None)
+                cs = cases(specialise(r, dec))
+                if len(cs) != 1 or cs[0].facts:
+                    okb = False
+                    continue
+                leaf = cs[0].leaf
+                if tc and not xc:
+                    # promoted to complex: value + 0j / value * (1+0j) / astype(complex)
+                    if leaf.op == "bin" and leaf.opname == "Add" and leaf.r.op == "const" and isinstance(leaf.r.value, complex) and leaf.r.value == 0:
+                        leaf = leaf.l
+                    elif leaf.op == "bin" and leaf.opname == "Add" and leaf.l.op == "const" and isinstance(leaf.l.value, complex) and leaf.l.value == 0:
+                        leaf = leaf.r
+                    else:
+                        okb = False
+                        continue
+                if W is None:
+                    W = leaf
+                elif leaf is not W:
+                    okb = False
+    okb2 = okb1 = False
+    if okb and W is not None and W.op == "loop" and W.get("it") is not None:
+        it = W.it
+        B1 = W.init
+        if is_call_to(it, "builtins.enumerate") and len(it.args) == 1 and shape_of(it.args[0], lambda y: y is B1):
+            is_size1 = lambda a: a.op == "cmp" and a.opname == "Eq" and ((comp(it, 1)(a.l) and a.r.op == "const" and a.r.value == 1) or (comp(it, 1)(a.r) and a.l.op == "const" and a.l.value == 1))
+            okb2 = True
+            saw = set()
+            for c in cases(W.next):
+                pol = c.pol(is_size1)
+                if pol is None or any(not is_size1(a) for a, _ in c.facts):
+                    okb2 = False
+                    continue
+                saw.add(pol)
+                if pol:
+                    lf = c.leaf
+                    rep = arg(lf, 1, "repeats") if lf.op == "call" else None
+                    good = np_call(lf, "repeat") and me(W)(lf.args[0]) and rep is not None and rep.op == "sub" and t_shape(rep.obj) and comp(it, 0)(rep.idx) and arg(lf, 2, "axis") is not None and comp(it, 0)(arg(lf, 2, "axis"))
+                    okb2 = okb2 and bool(good)
+                elif not me(W)(c.leaf):
+                    okb2 = False
+            okb2 = okb2 and saw == {True, False}
+            if B1 is not None and B1.op == "loop" and B1.init is x2:
+                nx = B1.next
+                body_ok = np_call(nx, "expand_dims") and me(B1)(nx.args[0]) and arg(nx, 1, "axis") is not None and arg(nx, 1, "axis").op == "const" and arg(nx, 1, "axis").value == 0
+                cnd = B1.get("cond")
+                if cnd is not None:
+                    a, pol = atom(cnd)
+                    cond_ok = pol and a.op == "cmp" and a.opname == "Lt" and ndim_of(a.l, me(B1)) and t_ndim(a.r)
+                else:
+                    itr = B1.get("it")
+                    cond_ok = itr is not None and is_call_to(itr, "builtins.range") and len(itr.args) == 1 and itr.args[0].op == "bin" and itr.args[0].opname == "Sub" and t_ndim(itr.args[0].l) and ndim_of(itr.args[0].r, lambda t: t is x2)
+                okb1 = bool(body_ok and cond_ok)
+    _ok(ctx, "A3.helper", "broadcast: expand to target_ndim, repeat size-1 axes to the target's size, return it", okb and okb1 and okb2, loc2, f"{q2}:structure", "broadcast(x, target) no longer expands leading axes and repeats size-1 axes up to the target's shape", "forward mode through add/subtract/mod with a smaller differentiated argument")
 
 
 def _is_sum_of(assign, xp, keepdims, axis_name=None):
